@@ -273,7 +273,9 @@ def search_consuming_paths(
         con.execute(DROP_SINKS)
         con.execute(INITIAL_SINKS)
         con.executemany(
-            "INSERT INTO temp.initial_sink SELECT node.i FROM node WHERE node.label = ?",
+            # Only file nodes: the label of a step is its command, which may well read like a path.
+            "INSERT INTO temp.initial_sink SELECT node.i FROM node "
+            "WHERE node.kind = 'file' AND node.label = ?",
             ((path,) for path in initial_paths),
         )
         select_outputs = SELECT_OUTPUTS
